@@ -108,9 +108,9 @@ class ClusteringFlowModel(FlowModel):
         self, x: np.ndarray
     ) -> Tuple[np.ndarray, np.ndarray]:
         cluster_labels = self.get_cluster_labels(x)
-        x, _ = super().forward_and_log_prob(x, conditional=cluster_labels)
+        z, _ = super().forward_and_log_prob(x, conditional=cluster_labels)
         log_prob = self.log_prob(x)
-        return x, log_prob
+        return z, log_prob
 
     def log_prob(self, x: np.ndarray) -> np.ndarray:
         # Must compute log-prob for every conditional value
